@@ -13,7 +13,7 @@ import FV.Proofs.ProducersAlloc
   object (same regions / cells / ratios / modules / kinds / shapes / nets / weights), `(producer obj).2 = obj`
   (producing does not alter the object) and, as a corollary, producing twice gives the same tree.
   netgen: for every topology and every size at which it is defined — chain, star: every n; ring: n ≥ 3; ring-star:
-  n ≥ 4; one-net: n ≥ 2; grid: columns ≥ 1; H-tree: levels ≥ 1, by induction on the levels with the invariant
+  n ≥ 4; one-net: n ≥ 2; grid: columns ≥ 1 (also with `--add-centers`: `gen_grid_centres_*`); H-tree: levels ≥ 1, by induction on the levels with the invariant
   "every referenced index lies in [first index, next free index)" — `gen_*_accepted` (the reader returns exactly the
   netlist of the index-level specification) and `gen_*_topology` (that netlist is well formed and is the intended graph).
 
@@ -39,6 +39,16 @@ import FV.Proofs.ProducersAlloc
   document is accepted in the same tolerance state and yields the same cells, ratio maps, depths, caches and box.
   NOT carried by either document: the run-time marks of a rectangle (`fixed`, `hard`, STOG location) — the re-read cells
   are the source cells with those marks reset (`stripCell`).
+
+  NOT CLAIMED
+  * the run-time `fixed` mark of an allocation cell.  The allocation format `[[x, y, w, h, region], {module: ratio},
+    depth]` has no field for it (`Allocation._parse_yaml_tree` calls `parse_yaml_rectangle(r)` with `fixed=False`; the
+    mark is re-derived from a netlist by `Allocation.initial_allocation` / `_detect_fixed_rectangles`), so an allocation
+    read back has every cell unmarked and operations that consult the mark can differ — witness: 4×4 die with the fixed
+    cell `[3,1,2,2] {B: 1.0}`: `refine(1.0, 1)` returns 5 cells on the original object and 6 on the re-read one.  The
+    property lists "regions, cells and ratios"; `alloc_roundtrip_constructor` therefore states the re-read cells with the
+    marks reset (`stripCell`), and the harness compares cells without the mark and counts the cases where it is lost.
+  * the text form of a netgen / FloorSet / die / allocation document beyond what `ruamel` round-trips (see OUTSIDE).
 
   OUTSIDE these theorems (exercised on every sample by harness/props/c19.py, not proved):
   * the text layer (ruamel dump / safe load, `str(float)` inside the string-built netlists);
@@ -402,6 +412,66 @@ theorem gen_grid_topology (a : α) (rows columns : Nat) :
       · exact mem_gridNames key.1 key.2.1
       · exact mem_gridNames key.2.2.1 key.2.2.2.1
 
+/-! #### grid with `--add-centers` -/
+
+lemma genGrid_nets (area : Num α) (rows columns : Nat) :
+    (genGrid area rows columns).nets = (gridH rows columns ++ gridV rows columns).map fun q =>
+      pair (modName2 q.1.1 q.1.2) (modName2 q.2.1 q.2.2) := by
+  simp [genGrid, gridH, gridV, List.map_flatMap, Function.comp_def]
+
+/-- the grid with centres (any noise draws): accepted; the loaded netlist has the modules `M_r_c` in row-major order,
+    each a soft module of the given area whose centre is `gridCentre` (cell centre + the two noise draws of that module),
+    and the nets of the plain grid. -/
+theorem gen_grid_centres_accepted (stog : List (NRect α) → List (NRect α)) (εA : α) (area : Num α)
+    (ha : (0 : α) < area.val) (rows columns : Nat) (hc : 1 ≤ columns) (W H : α) (noise : List α) :
+    parseNetlist stog εA (genGridCentred area rows columns W H noise).toY
+      = .ok { modules := (gridIdx rows columns).map fun rc =>
+                softModC (modName2 rc.1 rc.2) (gridCentre rows columns W H noise rc) area.val,
+              nets := (gridNetlist area.val rows columns).nets } := by
+  have hc0 : ¬ columns = 0 := by omega
+  simp only [genGridCentred, hc0, if_false, genModulesCentred_eq, genGrid_nets]
+  have hnames : (gridIdx rows columns).map (fun rc => modName2 rc.1 rc.2) = gridNames rows columns :=
+    (gridNames_eq rows columns).symm
+  rw [parseNetlist_softgen stog εA (gridIdx rows columns) (fun rc => modName2 rc.1 rc.2)
+    (fun rc => modInfoC area (gridCentreY rows columns W H noise rc))
+    (fun rc => softModC (modName2 rc.1 rc.2) (gridCentre rows columns W H noise rc) area.val) _
+    (fun rc _ => parseModule_areaNum_center (modName2 rc.1 rc.2) area (gridCentre rows columns W H noise rc)
+      (validIdent_modName2 _ _) ha)
+    (fun rc _ => by simp [softModC])
+    (by rw [hnames]; exact gridNames_nodup rows columns)
+    (by
+      intro e he
+      rw [hnames]
+      obtain ⟨q, hq, rfl⟩ := List.mem_map.mp he
+      refine ⟨by simp [pair], ?_, by simp [pair]⟩
+      intro m hm
+      simp only [pair, List.mem_cons, List.mem_nil_iff, or_false] at hm
+      rcases List.mem_append.mp hq with h | h
+      · obtain ⟨h1, h2, h3⟩ := mem_gridH.mp h
+        rcases hm with rfl | rfl
+        · exact mem_gridNames h1 (by omega)
+        · rw [h3]; exact mem_gridNames h1 h2
+      · obtain ⟨h1, h2, h3⟩ := mem_gridV.mp h
+        rcases hm with rfl | rfl
+        · exact mem_gridNames (by omega) h2
+        · rw [h3]; exact mem_gridNames h1 h2)]
+  simp [gridNetlist, pair, GEdge.toNet, Function.comp_def]
+
+/-- without noise (`sd = 0`) the centre of `M_r_c` on a `W × H` die is the centre of cell `(r, c)` of the `rows × columns`
+    grid: `((c + 1/2)·W/columns, (r + 1/2)·H/rows)`, strictly inside its own cell and hence strictly inside the die —
+    x from the COLUMN index and the width, y from the ROW index and the height. -/
+theorem gen_grid_centres_position (rows columns r c : Nat) (W H : α) (hr : r < rows) (hcc : c < columns)
+    (hW : 0 < W) (hH : 0 < H) :
+    let p := gridCentre rows columns W H [] (r, c)
+    p.1 = ((c : α) + 1 / 2) * W / (columns : α) ∧ p.2 = ((r : α) + 1 / 2) * H / (rows : α) ∧
+    (c : α) * W / (columns : α) < p.1 ∧ p.1 < ((c : α) + 1) * W / (columns : α) ∧
+    (r : α) * H / (rows : α) < p.2 ∧ p.2 < ((r : α) + 1) * H / (rows : α) ∧
+    0 < p.1 ∧ p.1 < W ∧ 0 < p.2 ∧ p.2 < H := by
+  obtain ⟨x1, x2, x3, x4, x5⟩ := gridCentreCoord_mid c columns W hcc hW
+  obtain ⟨y1, y2, y3, y4, y5⟩ := gridCentreCoord_mid r rows H hr hH
+  simp only [gridCentre, List.getD_nil]
+  exact ⟨x1, y1, x2, x3, y2, y3, x4, x5, y4, y5⟩
+
 /-! #### H-tree (`levels ≥ 1`), by induction on the number of levels -/
 
 /-- the loaded H-tree: modules `M0 … M(size-1)` and the weighted two-pin nets of `htreeEdges`. -/
@@ -628,6 +698,29 @@ theorem floorset_accepted (stog : List (NRect α) → List (NRect α)) (εA eps 
   obtain ⟨sx, sy, hs⟩ := fsShape_ok f h.pins_ne
   exact ⟨sx, sy, hs, by simp [writeFPEF, hs, dumpNamedEdges], floorset_parseNetlist stog εA eps sx sy f h⟩
 
+/-- with `--store-terminals` the (REPAIRED) pin placement keeps the `eps × eps` rectangle of every terminal inside the
+    die: for a pin coordinate `0 ≤ p ≤ shape` (the die is spanned by the pins) and a die at least `2.5·eps` wide, the
+    rectangle `[x - eps/2, x + eps/2]` around the placed coordinate `x` lies in `[0, shape]`, and `x` is within `eps` of
+    the pin. -/
+theorem floorset_terminal_in_die (eps shape p : α) (he : 0 < eps) (hs : 5 / 2 * eps ≤ shape) (hp0 : 0 ≤ p)
+    (hp1 : p ≤ shape) :
+    0 ≤ fsPinCoord eps shape p - eps / 2 ∧ fsPinCoord eps shape p + eps / 2 ≤ shape ∧
+    |fsPinCoord eps shape p - p| ≤ eps := by
+  unfold fsPinCoord
+  split
+  · rename_i h
+    refine ⟨by linarith, by linarith, ?_⟩
+    rw [abs_le]; constructor <;> linarith
+  · split
+    · rename_i h1 h2
+      refine ⟨by linarith, by linarith, ?_⟩
+      rw [abs_le]; constructor <;> linarith
+    · rename_i h1 h2
+      have h1' := not_lt.mp h1
+      have h2' := not_lt.mp h2
+      refine ⟨by linarith, by linarith, ?_⟩
+      rw [abs_le]; constructor <;> linarith
+
 /-- an instance without pins produces nothing: the converter raises `ValueError` (`max()` of an empty sequence). -/
 theorem floorset_no_pins (eps : α) (f : FsInst α) (h : f.pins = []) :
     writeFPEF eps f = .error .valueError ∧ writeDIEF f = .error .valueError := by
@@ -842,6 +935,62 @@ example : ∃ (a : Alloc.Allocation ℚ) (st : Alloc.Eps ℚ), Alloc.ValidAlloc 
   rw [h] at hb
   simp only [Bool.and_eq_true, List.all_eq_true, List.any_eq_true] at hb
   exact ⟨a, st, hv, hb.1, hb.2⟩
+
+
+/-- `alloc_roundtrip_constructor` APPLIED to C02's witness allocation (which has a fixed cell): the written document is
+    accepted by the full constructor and the fixed mark is the only thing that is gone. -/
+example : ∃ (a : Alloc.Allocation ℚ) (st : Alloc.Eps ℚ) (raw : List (Alloc.RawCell ℚ)) (a' : Alloc.Allocation ℚ),
+    rawOfTree (writeAlloc (a.cells.map ofACell)).1 = some raw ∧
+    Alloc.mkAllocation Alloc.exEnv st raw = .ok (a', st) ∧ a'.cells = a.cells.map stripCell ∧ a'.stats = a.stats ∧
+    (∃ c ∈ a.cells, c.rect.fixed = true) ∧ (∀ c ∈ a'.cells, c.rect.fixed = false) := by
+  obtain ⟨a, st, h, hv⟩ := Alloc.exRawF_valid
+  have hb : (match Alloc.mkAllocation Alloc.exEnv ⟨-1, -1⟩ Alloc.exRawF with
+      | .ok (a, _) => a.cells.all (fun c => Alloc.validIdent c.rect.region) && a.cells.any (fun c => c.rect.fixed)
+      | .error _ => false) = true := by decide +kernel
+  rw [h] at hb
+  simp only [Bool.and_eq_true, List.all_eq_true, List.any_eq_true] at hb
+  obtain ⟨raw, a', h1, h2, h3, _, h5, _⟩ := alloc_roundtrip_constructor Alloc.exEnv st a hv hb.1
+  refine ⟨a, st, raw, a', h1, h2, h3, h5, hb.2, ?_⟩
+  intro c hc
+  rw [h3] at hc
+  obtain ⟨c0, _, rfl⟩ := List.mem_map.mp hc
+  rfl
+
+/-- `rectio_same_modules_as_allocation` APPLIED to the same allocation: whatever `get_netlist` stores for `M1` is the
+    allocation's cached area and centre of `M1`. -/
+example : ∃ (a : Alloc.Allocation ℚ) (st : Alloc.Eps ℚ), Alloc.ValidAlloc st a ∧
+    match rioLook (rioMap (a.cells.map ofACell)) "M1" with
+    | none => a.areaOf "M1" = none
+    | some (c, ar) => a.areaOf "M1" = some ar ∧ a.centerOf "M1" = some c := by
+  obtain ⟨a, st, _, hv⟩ := Alloc.exRawF_valid
+  refine ⟨a, st, hv, ?_⟩
+  have := rectio_same_modules_as_allocation st a hv "M1"
+  cases hl : rioLook (rioMap (a.cells.map ofACell)) "M1" with
+  | none => rw [hl] at this; exact this.2
+  | some v => obtain ⟨c, ar⟩ := v; rw [hl] at this; exact ⟨this.2.1, this.2.2⟩
+
+/-- `die_roundtrip_constructor` APPLIED: an 8 × 6 die with a blockage and a `dsp` region. -/
+example : ∃ inp', Die.parseDie (toYV (writeDie (dieObjOfIn
+      ({ W := 8, H := 6, regions := [{ cx := 1, cy := 1, w := 2, h := 2, region := "dsp" },
+                                      { cx := 5, cy := 5, w := 2, h := 1, region := "#" }] } : Die.DieIn ℚ))).1) = .ok inp' ∧
+    inp'.W = 8 ∧ inp'.H = 6 ∧ (Die.blockOf inp').length = 1 ∧ (Die.specOf inp').length = 1 := by
+  obtain ⟨inp', h1, h2, h3, h4, h5, _⟩ := die_roundtrip_constructor
+    ({ W := 8, H := 6, regions := [{ cx := 1, cy := 1, w := 2, h := 2, region := "dsp" },
+                                    { cx := 5, cy := 5, w := 2, h := 1, region := "#" }] } : Die.DieIn ℚ)
+    (by norm_num) (by norm_num) (by
+      intro r hr
+      simp only [List.mem_cons, List.mem_nil_iff, or_false] at hr
+      rcases hr with rfl | rfl
+      · exact ⟨by norm_num, by norm_num, by norm_num, by norm_num, Or.inl (by decide), by decide, rfl, rfl, rfl⟩
+      · exact ⟨by norm_num, by norm_num, by norm_num, by norm_num, Or.inr rfl, by decide, rfl, rfl, rfl⟩)
+  refine ⟨inp', h1, h2, h3, ?_, ?_⟩
+  · rw [h4]; decide
+  · rw [h5]; decide
+
+/-- `gen_grid_centres_position` on the auditor's example: grid 1 × 2 on an 8 × 2 die puts `M0_1` at (6, 1), inside the die
+    (the swapped formula would give (2, 3)). -/
+example : gridCentre 1 2 (8 : ℚ) 2 [] (0, 1) = (6, 1) := by
+  simp [gridCentre, gridCentreCoord]; norm_num
 
 
 end FV.C19
